@@ -236,8 +236,10 @@ class RoundtripUnit(corr.Unit):
         a, b_ = flatten(out["inrun"]), flatten(out["post"])
         bad = [(k, a[k], b_.get(k)) for k in a if b_.get(k) is None or abs(a[k] - b_[k]) > 0.011 + 1e-6 * abs(a[k])]
         if bad:
-            derived = ("power procurement", "value added tax", "total (gross)")
-            if not out["has_price_column"] and case["strategy"] == "balanced_market" and all(k.split("/")[-1] in derived for k, _, _ in bad):
+            # signature of the catalogued finding: only the flexible-load commodity costs (zero from the file) and sums derived from them
+            derived = ("costs for flexible load", "total costs", "total grid fee", "power procurement", "value added tax", "total (gross)")
+            if (not out["has_price_column"] and case["strategy"] == "balanced_market"
+                    and all(k.split("/")[-1] in derived and "capacity" not in k for k, _, _ in bad)):
                 return [("C18/cost-roundtrip-no-price-column", "all prices are zero, the CSV has no price column: in-run uses the fixed commodity charge, "
                          "the file reader substitutes a price series of zeros: %s: %s" % (bad[:2], d))]
             return [("C18/cost-roundtrip", "costs from the written files differ from the in-run costs: %s: %s" % (bad[:4], d))]
